@@ -122,7 +122,7 @@ func (g *gen) withID(s *Sch) *Sch {
 }
 
 var fieldNames = []string{"a", "b", "c", "d"}
-var words = []string{"a", "b", "ab", "x.y", "zz", "A", "Q"}
+var words = []string{"a", "b", "ab", "x.y", "zz", "A", "Q", "ba"}
 var intKinds = []string{"int", "int", "int", "int", "i64", "i8", "u8", "i16", "u32", "uint", "i32", "u16", "u64"}
 
 func (g *gen) small() int64 { return int64(g.r.Intn(6)) }
@@ -645,6 +645,32 @@ func (g *gen) strCands(s *Sch) []*J {
 	if pre != "" || suf != "" || inc != "" {
 		out = append(out, jStr("q"+core), jStr(core+"q"), jStr(pre+suf), jStr("xay"))
 	}
+	// the fixed parts OVERLAPPING: a prefix check and a suffix check (an infix check likewise) hold independently, so a
+	// value may satisfy both with fewer characters than the parts have together
+	overlaps := func(a, b string) []*J {
+		var r []*J
+		for k := 1; k <= len(a) && k <= len(b); k++ {
+			if a[len(a)-k:] == b[:k] {
+				r = append(r, jStr(a+b[k:]))
+			}
+		}
+		if strings.HasSuffix(a, b) {
+			r = append(r, jStr(a))
+		}
+		if strings.HasPrefix(b, a) {
+			r = append(r, jStr(b))
+		}
+		return r
+	}
+	if pre != "" && suf != "" {
+		out = append(overlaps(pre, suf), out...)
+	}
+	if pre != "" && inc != "" {
+		out = append(out, overlaps(pre, inc)...)
+	}
+	if inc != "" && suf != "" {
+		out = append(out, overlaps(inc, suf)...)
+	}
 	if trim {
 		out = append(out, jStr(" "+core+" "), jStr("  "), jStr(" mm "))
 	}
@@ -1000,11 +1026,11 @@ func (g *gen) countFeatures(out *hx.Out, s *Sch) {
 
 // ---------------------------------------------------------------- corpus (DESIGN §5 C07 "Seen" classes first)
 
-func str(cs ...Ck) *Sch           { return &Sch{K: "str", Cks: cs} }
+func str(cs ...Ck) *Sch            { return &Sch{K: "str", Cks: cs} }
 func intS(k string, cs ...Ck) *Sch { return &Sch{K: "int", Kind: k, Cks: cs} }
-func opt(s *Sch) *Sch             { return &Sch{K: "opt", Elem: s} }
-func lazy(fl string, s *Sch) *Sch { return &Sch{K: "lazy", Kind: fl, Elem: s} }
-func nul(s *Sch) *Sch             { return &Sch{K: "nul", Elem: s} }
+func opt(s *Sch) *Sch              { return &Sch{K: "opt", Elem: s} }
+func lazy(fl string, s *Sch) *Sch  { return &Sch{K: "lazy", Kind: fl, Elem: s} }
+func nul(s *Sch) *Sch              { return &Sch{K: "nul", Elem: s} }
 func obj(mode string, fs ...Field) *Sch {
 	return &Sch{K: "obj", Mode: mode, Fields: fs}
 }
@@ -1012,10 +1038,10 @@ func obj(mode string, fs ...Field) *Sch {
 func corpusSchemas() []*Sch {
 	min2 := Ck{Op: "min", N: 2}
 	return []*Sch{
-		str(min2, Ck{Op: "max", N: 3}),                                   // (a) bytes vs code points
-		str(Ck{Op: "trim"}, min2),                                        // (b) overwrite before check
-		opt(str()),                                                       // (c) top-level optional accepts null
-		obj("strip", Field{"a", opt(str())}, Field{"b", intS("int")}),    // (c) optional field given null
+		str(min2, Ck{Op: "max", N: 3}), // (a) bytes vs code points
+		str(Ck{Op: "trim"}, min2),      // (b) overwrite before check
+		opt(str()),                     // (c) top-level optional accepts null
+		obj("strip", Field{"a", opt(str())}, Field{"b", intS("int")}),                               // (c) optional field given null
 		&Sch{K: "obj", Mode: "strip", Fields: []Field{{"a", str()}, {"b", str()}}, Cks: []Ck{min2}}, // (d) Object.Min → minItems
 		&Sch{K: "obj", Mode: "strip", Fields: []Field{{"a", str()}, {"b", str()}}, Part: true},      // (e) Partial keeps required
 		// Partial / Required call histories: what Parse asks the object (isFieldOptional) the document must say too
@@ -1027,6 +1053,9 @@ func corpusSchemas() []*Sch {
 		&Sch{K: "obj", Mode: "strip", Fields: []Field{{"a", str()}, {"b", opt(str())}}, Ops: []ObjOp{{}, {Req: true, Keys: []string{"a"}}}},
 		&Sch{K: "obj", Mode: "strict", Fields: []Field{{"a", str()}, {"b", nul(str())}}, Ops: []ObjOp{{Req: true, Keys: []string{"b"}}, {}, {Req: true, Keys: []string{"nosuch", "a"}}}},
 		lazy("--", &Sch{K: "obj", Mode: "strip", Fields: []Field{{"b", opt(str())}}, Ops: []ObjOp{{Req: true}}}),
+		// a prefix and a suffix check that can overlap in the value ("aba"): two independent conditions
+		str(Ck{Op: "sw", S: "ab"}, Ck{Op: "ew", S: "ba"}),
+		str(Ck{Op: "ew", S: "x"}, Ck{Op: "sw", S: "x"}),
 		// recursive schemas: the Lazy's reference must name the schema it resolves to, which is the root only for "root"
 		&Sch{K: "recv", Kind: "root", Elem: str()},
 		&Sch{K: "recv", Kind: "field", Elem: str()},
@@ -1037,22 +1066,22 @@ func corpusSchemas() []*Sch {
 		&Sch{K: "map", Key: str(Ck{Op: "min", N: 2}), Elem: intS("int")},
 		&Sch{K: "map", Key: str(), Elem: intS("int"), Cks: []Ck{min2}},
 		&Sch{K: "map", Key: str(Ck{Op: "re", S: "lw"}, Ck{Op: "max", N: 3}), Elem: nul(str())},
-		&Sch{K: "arr", Items: []*Sch{str()}},                             // (f) single-item Array
+		&Sch{K: "arr", Items: []*Sch{str()}},                                              // (f) single-item Array
 		&Sch{K: "rec", Key: &Sch{K: "enum", Strs: []string{"x", "y"}}, Elem: intS("int")}, // (g) exhaustive record
-		&Sch{K: "union", Items: []*Sch{str(), {K: "nil"}}},               // (h) union with Nil
-		intS("int", Ck{Op: "gt", N: 5}, Ck{Op: "gte", N: 5}),              // merge drops exclusive bound
-		str(Ck{Op: "min", N: 5}, Ck{Op: "len", N: 3}),                    // Length overwrites Min
-		obj("strip", Field{"a", obj("strip", Field{"b", str()})}),        // nested strip object
-		obj("strict", Field{"a", intS("i8")}),                            // nested sized int has no range
+		&Sch{K: "union", Items: []*Sch{str(), {K: "nil"}}},                                // (h) union with Nil
+		intS("int", Ck{Op: "gt", N: 5}, Ck{Op: "gte", N: 5}),                              // merge drops exclusive bound
+		str(Ck{Op: "min", N: 5}, Ck{Op: "len", N: 3}),                                     // Length overwrites Min
+		obj("strip", Field{"a", obj("strip", Field{"b", str()})}),                         // nested strip object
+		obj("strict", Field{"a", intS("i8")}),                                             // nested sized int has no range
 		&Sch{K: "tup", Items: []*Sch{str(), opt(intS("int"))}},
 		&Sch{K: "slice", Elem: str(), Cks: []Ck{min2}},
 		&Sch{K: "xor", Items: []*Sch{obj("strict", Field{"a", str()}), obj("strip", Field{"a", str()})}},
 		&Sch{K: "and", Items: []*Sch{obj("strict", Field{"a", str()}), obj("strict", Field{"b", str()})}}, // unrecognized keys merged
-		&Sch{K: "rec", Key: str(), Elem: nul(str())},                      // nil record value
+		&Sch{K: "rec", Key: str(), Elem: nul(str())},                                                      // nil record value
 		nul(opt(str())), opt(nul(str())),
-		&Sch{K: "lit", Lits: []*J{jStr("a"), jInt(1)}},                   // type tag from the first literal only
+		&Sch{K: "lit", Lits: []*J{jStr("a"), jInt(1)}},                                                    // type tag from the first literal only
 		&Sch{K: "obj", Mode: "strip", Catch: intS("int"), Fields: []Field{{"a", str()}}, Cks: []Ck{min2}}, // size after strip
-		&Sch{K: "arr", Rest: &Sch{K: "bool"}, Items: []*Sch{str()}},        // rest without minItems
+		&Sch{K: "arr", Rest: &Sch{K: "bool"}, Items: []*Sch{str()}},                                       // rest without minItems
 		// positional containers with items of mixed optionality: Array demands exactly len(items) elements whatever
 		// the flags, Tuple lets trailing optional items be omitted (RequiredCount) — both with and without a rest schema
 		&Sch{K: "arr", Items: []*Sch{{K: "bool"}, opt(nul(str())), opt(nul(intS("int")))}},
